@@ -270,7 +270,11 @@ class SymStr:
             if p is not None and is_concrete(p):
                 s = concrete(p)
                 if re.fullmatch(r"\+?[0-9]+", s):
-                    return [(OK, ("enum", OKV, (hirai.mkint(int(s)),)), st)]
+                    nval = int(s)
+                    bits = {"8": 8, "16": 16, "32": 32, "64": 64, "128": 128, "size": 64}[re.fullmatch(r"(u|i)(8|16|32|64|128|size)", ty).group(2)]
+                    if nval >= (1 << (bits - (1 if ty.startswith("i") else 0))):
+                        return [(OK, ("enum", ERRV, (atom("number too large to fit in target type", "word"),)), st)]
+                    return [(OK, ("enum", OKV, (hirai.mkint(nval) if nval < 65536 else ("int", nval),)), st)]
                 return [(OK, ("enum", ERRV, (unk("parseint"),)), st)]
             if p is not None and all(x[0] == "atom" and x[2] == "word" for x in p) and len(p) == 1:
                 return [(OK, ("enum", ERRV, (unk("parseint"),)), st)]
